@@ -601,15 +601,24 @@ def nzlead(a, n):
     return k
 
 
-def ck_image(s, b, off):
-    """b[off:] starts with the documented export of the cuckoo filter s: capacity buckets of bucket_size little-endian
-    uint32 slots (the stored fingerprints first, the rest 0), then uint32 bucket_size, uint32 max_swaps"""
+def ck_cells(s, b, off):
+    """b[off:] starts with capacity buckets of bucket_size little-endian uint32 slots (the stored fingerprints first, the
+    rest 0)"""
     n = s._cuckoo_capacity
     w = s._bucket_size
-    foot = off + 4 * smul(n, w)
-    return (all(all(le_bytes(b, off + 4 * (smul(q, w) + j), 4) == (s._buckets[q][j] if j < len(s._buckets[q]) else 0)
-                    for j in range(0, w)) for q in range(0, n))
-            and le_bytes(b, foot, 4) == w and le_bytes(b, foot + 4, 4) == s._CuckooFilter__max_cuckoo_swaps)
+    return all(all(le_bytes(b, off + 4 * (smul(q, w) + j), 4) == (s._buckets[q][j] if j < len(s._buckets[q]) else 0)
+                   for j in range(0, w)) for q in range(0, n))
+
+
+def ck_foot(s, b, off):
+    """after the buckets: uint32 bucket_size, uint32 max_swaps"""
+    foot = off + 4 * smul(s._cuckoo_capacity, s._bucket_size)
+    return le_bytes(b, foot, 4) == s._bucket_size and le_bytes(b, foot + 4, 4) == s._CuckooFilter__max_cuckoo_swaps
+
+
+def ck_image(s, b, off):
+    """b[off:] starts with the documented export of the cuckoo filter s: the buckets, then the footer"""
+    return ck_cells(s, b, off) and ck_foot(s, b, off)
 
 
 def u64_at(b, off, v):
